@@ -89,6 +89,16 @@ add(
     "DESIGN.md §4 C06",
 )
 
+add(
+    "C01", "exploration",
+    "Hypothesis-generated projects (compliant by construction + 0..4 injected defects, and fully random); independent model of the specification (attribution + inventory + covered) as oracle",
+    "About 2500 generated projects per quick run are linted with `reuse lint --json` (with and without Git, with and without the worker pool); exit "
+    "status, summary.compliant and all eight offender collections must equal what the model derives from the project description - soundness and "
+    "completeness of every category, including 'nothing else is reported' for noise files (LICENSE, empty, symlinks, dangling symlinks, SPDX documents, ignored files).",
+    "Trusts vlib/ref/{attribution,inventory,covered}.py; unreadable files are emulated by a directory named FILE.license (root ignores chmod).",
+    "DESIGN.md §4 C01",
+)
+
 NOT_BUILT = "check not built yet in this revision of /verif (planned in DESIGN.md §4; property-based testing applies)"
 
 
